@@ -212,10 +212,10 @@ impl G {
             5..=7 => Timeout::Some(self.rng.range(1, 30) * MS),
             8 => Timeout::Some(self.rng.range(1, 5) * 100 * MS),
             _ => {
-                if self.rng.chance(1, 6) {
-                    Timeout::Some(self.far())
-                } else {
-                    Timeout::None
+                match self.rng.below(8) {
+                    0 => Timeout::Some(self.far()),
+                    1 => Timeout::Max,
+                    _ => Timeout::None,
                 }
             }
         }
